@@ -15,6 +15,7 @@ import (
 	"sort"
 	"strconv"
 	"strings"
+	"unsafe"
 
 	"github.com/shopspring/decimal"
 	"google.golang.org/protobuf/proto"
@@ -291,7 +292,137 @@ func Protect(what string, x interface{}) {
 			snap[fmt.Sprintf("%v", k.Interface())] = fmt.Sprintf("%v", rv.MapIndex(k).Interface())
 		}
 		mapFrames = append(mapFrames, &mapRec{what: what, ref: rv, snap: snap})
+		return
 	}
+	if rv.IsValid() && rv.Kind() == reflect.Ptr && !rv.IsNil() && rv.Elem().Kind() == reflect.Struct {
+		// a tree of structs (a compiled expression): compared by a rendering of everything reachable from it,
+		// unexported fields included
+		deepFrames = append(deepFrames, &deepRec{what: what, ref: rv, snap: deepRender(rv)})
+	}
+}
+
+type deepRec struct {
+	what string
+	ref  reflect.Value
+	snap string
+}
+
+var deepFrames []*deepRec
+
+// deepRender prints everything reachable from v: pointers are followed (each once), interfaces unwrapped, unexported
+// fields read through their address; proto messages are printed by their text form, functions by their address.
+func deepRender(v reflect.Value) string {
+	var sb strings.Builder
+	seen := map[uintptr]bool{}
+	var walk func(v reflect.Value, depth int)
+	walk = func(v reflect.Value, depth int) {
+		if !v.IsValid() {
+			sb.WriteString("<invalid>")
+			return
+		}
+		if depth > 40 {
+			sb.WriteString("<deep>")
+			return
+		}
+		if v.CanAddr() && !v.CanInterface() {
+			v = reflect.NewAt(v.Type(), unsafe.Pointer(v.UnsafeAddr())).Elem() // an unexported field
+		}
+		if v.CanInterface() {
+			if m, ok := v.Interface().(proto.Message); ok && v.Kind() == reflect.Ptr {
+				if v.IsNil() {
+					sb.WriteString("<nil message>")
+				} else {
+					fmt.Fprintf(&sb, "%T{%v}", m, m)
+				}
+				return
+			}
+		}
+		switch v.Kind() {
+		case reflect.Ptr:
+			if v.IsNil() {
+				sb.WriteString("nil")
+				return
+			}
+			if seen[v.Pointer()] {
+				sb.WriteString("<seen>")
+				return
+			}
+			seen[v.Pointer()] = true
+			sb.WriteString("&")
+			walk(v.Elem(), depth+1)
+		case reflect.Interface:
+			if v.IsNil() {
+				sb.WriteString("nil")
+				return
+			}
+			fmt.Fprintf(&sb, "(%s)", v.Elem().Type())
+			e := v.Elem()
+			if e.Kind() != reflect.Ptr && e.Kind() != reflect.Interface {
+				// a non-pointer value inside an interface is not addressable: copy it to read its unexported fields
+				c := reflect.New(e.Type()).Elem()
+				c.Set(e)
+				e = c
+			}
+			walk(e, depth+1)
+		case reflect.Struct:
+			sb.WriteString(v.Type().String() + "{")
+			for i := 0; i < v.NumField(); i++ {
+				sb.WriteString(v.Type().Field(i).Name + ":")
+				walk(v.Field(i), depth+1)
+				sb.WriteString(" ")
+			}
+			sb.WriteString("}")
+		case reflect.Slice, reflect.Array:
+			if v.Kind() == reflect.Slice && v.IsNil() {
+				sb.WriteString("nil[]")
+				return
+			}
+			sb.WriteString("[")
+			for i := 0; i < v.Len(); i++ {
+				walk(v.Index(i), depth+1)
+				sb.WriteString(" ")
+			}
+			sb.WriteString("]")
+		case reflect.Map:
+			keys := []string{}
+			vals := map[string]reflect.Value{}
+			for _, k := range v.MapKeys() {
+				ks := fmt.Sprintf("%v", k)
+				keys = append(keys, ks)
+				vals[ks] = v.MapIndex(k)
+			}
+			sort.Strings(keys)
+			sb.WriteString("map[")
+			for _, k := range keys {
+				sb.WriteString(k + ":")
+				e := vals[k]
+				if e.Kind() != reflect.Ptr && e.Kind() != reflect.Interface {
+					c := reflect.New(e.Type()).Elem()
+					c.Set(e)
+					e = c
+				}
+				walk(e, depth+1)
+				sb.WriteString(" ")
+			}
+			sb.WriteString("]")
+		case reflect.Func, reflect.Chan, reflect.UnsafePointer:
+			fmt.Fprintf(&sb, "%s@%x", v.Kind(), v.Pointer())
+		case reflect.Bool:
+			fmt.Fprintf(&sb, "%v", v.Bool())
+		case reflect.Int, reflect.Int8, reflect.Int16, reflect.Int32, reflect.Int64:
+			fmt.Fprintf(&sb, "%d", v.Int())
+		case reflect.Uint, reflect.Uint8, reflect.Uint16, reflect.Uint32, reflect.Uint64, reflect.Uintptr:
+			fmt.Fprintf(&sb, "%d", v.Uint())
+		case reflect.Float32, reflect.Float64:
+			fmt.Fprintf(&sb, "%v", v.Float())
+		case reflect.String:
+			fmt.Fprintf(&sb, "%q", v.String())
+		default:
+			fmt.Fprintf(&sb, "<%s>", v.Kind())
+		}
+	}
+	walk(v, 0)
+	return sb.String()
 }
 
 type mapRec struct {
@@ -321,6 +452,11 @@ func CheckFrames() {
 	for _, m := range msgFrames {
 		if !proto.Equal(m.ref, m.snap) {
 			panic(FrameViolated{m.what})
+		}
+	}
+	for _, d := range deepFrames {
+		if deepRender(d.ref) != d.snap {
+			panic(FrameViolated{d.what})
 		}
 	}
 	for _, m := range mapFrames {
